@@ -52,9 +52,12 @@ func main() {
 			"when the VM panics on the ORIGINAL program (C21 findings) only the reference-level and static checks are applied",
 			"VM-only differences attributed by the reference interpreter to escaping closures (U1) or partial application of a variadic (U2) are counted as unsettled outcomes",
 		},
-		CaseTimeout: 60e9,
-		WorkerEnv:   []string{"GOMAXPROCS=2", "GOGC=300"},
-		Build:       build,
+		CaseTimeout: 120e9,
+		// sized for about 25 s (quick) / 7 min (thorough) on 16 idle cores; the deadlines leave room for a loaded machine
+		QuickDeadline:    4 * 60e9,
+		ThoroughDeadline: 25 * 60e9,
+		WorkerEnv:        []string{"GOMAXPROCS=2", "GOGC=300"},
+		Build:            build,
 	})
 }
 
